@@ -30,6 +30,7 @@
 -/
 import QKV.Lemmas.BinTer
 import QKV.Lemmas.TensorQ
+import QKV.Model.BinTerSR
 namespace QKV.Props.C04
 open QKV QKV.Tn QKV.BT
 
@@ -1155,5 +1156,249 @@ example : (match binary (Fl.exact (1/10000000)) ⟨false, .arr [2] [3, 5], ⟨tr
     `_set_trainable_parameter` (no effect: alpha is not None) -/
 example : ((binRun (Fl.exact (1/10000000)) ⟨⟨true⟩, BinObj.new (BinAttrs.ofStochastic (.num .pyInt 2)), []⟩
     [.call [2] [1, -1], .setTrainable, .call [1, 2] [-1, 0]]).obj.scale) = some [2, 2] := by decide +kernel
+
+/-! ### the option `use_stochastic_rounding` and the learning phase (strengthening round V04, seed C04-12)
+
+`binCodeSR` is the code step of `binary.__call__` as written: `sign`, then (option set) the zeros filled with
+`fill` (ones in inference, a random ±1 in training), then the unconditional `k += 1 - |k|` whose mask is
+recomputed AFTER the fill, then the `use_01` remap.  Model/BinTerSR.lean. -/
+
+/-- the code is in {-1,+1} ({0,1} in 0/1 mode) for every input, with or without the option, whatever the
+    draw of the fill (any ±1): no 0 and no 2 leaks out of the two fill-in steps -/
+theorem C04_sr_code_set (usr use01 : Bool) {fill : ℚ} (hf : fill = 1 ∨ fill = -1) (x : ℚ) :
+    (use01 = false → (binCodeSR usr use01 fill x = -1 ∨ binCodeSR usr use01 fill x = 1)) ∧
+    (use01 = true → (binCodeSR usr use01 fill x = 0 ∨ binCodeSR usr use01 fill x = 1)) := by
+  unfold binCodeSR sgn rabs
+  rcases hf with rfl | rfl <;> cases usr <;> cases use01 <;> constructor <;> intro h <;>
+    simp at h ⊢ <;> split_ifs <;> norm_num at * <;> first | linarith | skip
+
+/-- INFERENCE (fill = 1, "a biased 1"): the code is the plain sign code — zero counts as positive —, with or
+    without the option -/
+theorem C04_sr_code_inference (usr use01 : Bool) (x : ℚ) : binCodeSR usr use01 1 x = binCode use01 x := by
+  unfold binCodeSR binCode sgn rabs
+  cases usr <;> cases use01 <;> simp <;> split_ifs <;> norm_num at * <;> first | linarith | skip
+
+/-- a NON-ZERO carrier: the fill is irrelevant (any value at all), the code is the sign code -/
+theorem C04_sr_code_nonzero (usr use01 : Bool) (fill : ℚ) {x : ℚ} (hx : x ≠ 0) :
+    binCodeSR usr use01 fill x = binCode use01 x := by
+  unfold binCodeSR binCode sgn rabs
+  rcases lt_trichotomy x 0 with h | h | h
+  · cases usr <;> cases use01 <;> simp [h, not_lt.2 h.le] <;> norm_num
+  · exact absurd h hx
+  · cases usr <;> cases use01 <;> simp [h, not_lt.2 h.le] <;> norm_num
+
+/-- without the option the phase and the draws are irrelevant: the call IS `binary` -/
+theorem C04_sr_off_invariant (c : Fl) (cfg : BinCfg) (ph : Phase) (d : SRDraw) (shape : List ℕ) (x : List ℚ) :
+    binarySR c cfg false ph d shape x = binary c cfg shape x := by
+  have hc : ((x.zip (x.map fun _ => (1 : ℚ))).map fun p => binCodeSR false cfg.use01 p.2 p.1) =
+      x.map (binCode cfg.use01) := by
+    induction x with
+    | nil => rfl
+    | cons a t ih =>
+      simp only [List.map_cons, List.zip_cons_cons, ih, List.cons.injEq, and_true]
+      exact C04_sr_code_inference false cfg.use01 a
+  unfold binarySR srCarriers srFills
+  cases ph <;> simp only [hc] <;> rfl
+
+/-- INFERENCE PHASE: the option changes nothing — the call IS `binary` (Model/BinTer.lean), for every
+    configuration / rank / shape / input / float context; hence every tensor-level theorem above
+    (`C04_binary_codes`, `C04_binary_const_scale`, `C04_scale_group_constant`, `C04_least_squares`,
+    `C04_binary_po2_scale` …) holds verbatim for `binary(..., use_stochastic_rounding=True)` in inference -/
+theorem C04_sr_inference_invariant (c : Fl) (cfg : BinCfg) (usr : Bool) (d : SRDraw) (shape : List ℕ) (x : List ℚ) :
+    binarySR c cfg usr .inference d shape x = binary c cfg shape x := by
+  have hc : ((x.zip (x.map fun _ => (1 : ℚ))).map fun p => binCodeSR usr cfg.use01 p.2 p.1) =
+      x.map (binCode cfg.use01) := by
+    induction x with
+    | nil => rfl
+    | cons a t ih =>
+      simp only [List.map_cons, List.zip_cons_cons, ih, List.cons.injEq, and_true]
+      exact C04_sr_code_inference usr cfg.use01 a
+  unfold binarySR srCarriers srFills
+  cases usr <;> simp only [hc] <;> rfl
+
+/-- ANY phase, any draws whose fills are ±1: every element of a successful call is (rounded) scale × code
+    with the code in the code set -/
+theorem C04_sr_binary_codes (c : Fl) (cfg : BinCfg) (usr : Bool) (ph : Phase) (d : SRDraw)
+    (hd : ∀ u ∈ d.u, u = 1 ∨ u = -1) (shape : List ℕ) (x : List ℚ) (es : List Elt)
+    (h : binarySR c cfg usr ph d shape x = .ok es) :
+    ∀ e ∈ es, e.y = c.r (e.scale * e.code) ∧
+      (cfg.use01 = false → (e.code = -1 ∨ e.code = 1)) ∧ (cfg.use01 = true → (e.code = 0 ∨ e.code = 1)) := by
+  set xc := srCarriers c cfg.grp.chLast usr ph d shape x with hxc
+  have hfill : ∀ u ∈ srFills usr ph d xc, u = 1 ∨ u = -1 := by
+    intro u hu
+    unfold srFills at hu
+    cases usr <;> cases ph <;> simp only at hu
+    · obtain ⟨_, _, rfl⟩ := List.mem_map.1 hu; exact Or.inl rfl
+    · obtain ⟨_, _, rfl⟩ := List.mem_map.1 hu; exact Or.inl rfl
+    · obtain ⟨_, _, rfl⟩ := List.mem_map.1 hu; exact Or.inl rfl
+    · exact hd u hu
+  have key : ∀ scales : List ℚ, ∀ e ∈ (((xc.zip ((xc.zip (srFills usr ph d xc)).map
+      fun p => binCodeSR usr cfg.use01 p.2 p.1)).zip scales).map fun p =>
+      ({ x := p.1.1, code := p.1.2, scale := p.2, y := c.r (p.2 * p.1.2) } : Elt)),
+      e.y = c.r (e.scale * e.code) ∧
+      (cfg.use01 = false → (e.code = -1 ∨ e.code = 1)) ∧ (cfg.use01 = true → (e.code = 0 ∨ e.code = 1)) := by
+    intro scales e he
+    obtain ⟨p, hp, rfl⟩ := List.mem_map.1 he
+    have h2 := (List.of_mem_zip (List.of_mem_zip hp).1).2
+    obtain ⟨q, hq, hq2⟩ := List.mem_map.1 h2
+    have hf := hfill q.2 (List.of_mem_zip hq).2
+    have hs := C04_sr_code_set usr cfg.use01 hf q.1
+    refine ⟨rfl, ?_, ?_⟩
+    · intro h0; show p.1.2 = -1 ∨ p.1.2 = 1; rw [← hq2]; exact hs.1 h0
+    · intro h1; show p.1.2 = 0 ∨ p.1.2 = 1; rw [← hq2]; exact hs.2 h1
+  unfold binarySR binaryWith at h
+  rw [← hxc] at h
+  cases ha : cfg.alpha with
+  | none => simp only [ha] at h; cases h; exact key _
+  | const a => simp only [ha] at h; cases h; exact key _
+  | auto =>
+    simp only [ha] at h
+    cases hk : keys cfg.grp shape with
+    | error e => simp [hk] at h
+    | ok v => obtain ⟨pk, ck⟩ := v; simp only [hk] at h; cases h; exact key _
+  | autoPo2 =>
+    simp only [ha] at h
+    cases hk : keys cfg.grp shape with
+    | error e => simp [hk] at h
+    | ok v => obtain ⟨pk, ck⟩ := v; simp only [hk] at h; cases h; exact key _
+  | arr ash vals =>
+    simp only [ha] at h
+    cases hs : arrScales ash vals shape with
+    | error e => simp [hs] at h
+    | ok s => simp only [hs] at h; cases h; exact key _
+
+/-- TRAINING PHASE, `stochastic_round(z, 1/8)` with `z = fl(x / f)` as the float computation forms it (no
+    rounding is involved in `floor(8 z) / 8` / `ceil(8 z) / 8`): once `|z| ≥ 1/8` BOTH draws keep the strict
+    sign of `z` — stochastic rounding can only randomise the code of elements with `|x| < f / 8` -/
+theorem C04_sr_round_sign (up : Bool) (z : ℚ) :
+    (1 / 8 ≤ z → 1 / 8 ≤ srRound up z) ∧ (z ≤ -(1 / 8) → srRound up z ≤ -(1 / 8)) := by
+  unfold srRound
+  have e1 : (8 * z).floor = ⌊8 * z⌋ := rfl
+  have e2 : (-(8 * z)).floor = ⌊-(8 * z)⌋ := rfl
+  rw [e1, e2]
+  have h2 : ⌊8 * z⌋ ≤ -⌊-(8 * z)⌋ := by
+    have a := Int.floor_le (8 * z)
+    have b := Int.floor_le (-(8 * z))
+    have : ((⌊8 * z⌋ + ⌊-(8 * z)⌋ : ℤ) : ℚ) ≤ 0 := by push_cast; linarith
+    have : ⌊8 * z⌋ + ⌊-(8 * z)⌋ ≤ 0 := by exact_mod_cast this
+    omega
+  constructor
+  · intro hz
+    have h1 : (1 : ℤ) ≤ ⌊8 * z⌋ := Int.le_floor.2 (by push_cast; linarith)
+    cases up <;> simp only [Bool.false_eq_true, if_false, if_true]
+    · have : ((1 : ℤ) : ℚ) ≤ (⌊8 * z⌋ : ℚ) := by exact_mod_cast h1
+      push_cast at this; linarith
+    · have : ((1 : ℤ) : ℚ) ≤ ((-⌊-(8 * z)⌋ : ℤ) : ℚ) := by exact_mod_cast h1.trans h2
+      push_cast at this ⊢; linarith
+  · intro hz
+    have h1 : -⌊-(8 * z)⌋ ≤ (-1 : ℤ) := by
+      have : (1 : ℤ) ≤ ⌊-(8 * z)⌋ := Int.le_floor.2 (by push_cast; linarith)
+      omega
+    cases up <;> simp only [Bool.false_eq_true, if_false, if_true]
+    · have : ((⌊8 * z⌋ : ℤ) : ℚ) ≤ ((-1 : ℤ) : ℚ) := by exact_mod_cast h2.trans h1
+      push_cast at this; linarith
+    · have : ((-⌊-(8 * z)⌋ : ℤ) : ℚ) ≤ ((-1 : ℤ) : ℚ) := by exact_mod_cast h1
+      push_cast at this ⊢; linarith
+
+/-- TRAINING PHASE in exact arithmetic: an element with `|x| ≥ f / 8` (`f > 0` the normaliser of its channel)
+    keeps the sign code of the input for every draw of the rounding and of the fill -/
+theorem C04_sr_train_sign (eps : ℚ) (use01 up : Bool) (fill : ℚ) {f x : ℚ} (hf : 0 < f) (hx : f / 8 ≤ |x|) :
+    binCodeSR true use01 fill (srCarrier (Fl.exact eps) f up x) = binCode use01 x := by
+  have hcar : srCarrier (Fl.exact eps) f up x = f * srRound up (x / f) := by
+    simp [srCarrier, ste, Fl.exact]
+  rw [hcar]
+  rcases le_or_gt 0 x with h0 | h0
+  · rw [abs_of_nonneg h0] at hx
+    have hz : 1 / 8 ≤ x / f := by rw [le_div_iff₀ hf]; linarith
+    have hr := (C04_sr_round_sign up (x / f)).1 hz
+    have hpos : 0 < f * srRound up (x / f) := mul_pos hf (by linarith)
+    rw [C04_sr_code_nonzero true use01 fill hpos.ne']
+    unfold binCode; simp [not_lt.2 hpos.le, not_lt.2 h0]
+  · rw [abs_of_neg h0] at hx
+    have hz : x / f ≤ -(1 / 8) := by rw [div_le_iff₀ hf]; linarith
+    have hr := (C04_sr_round_sign up (x / f)).2 hz
+    have hneg : f * srRound up (x / f) < 0 := mul_neg_of_pos_of_neg hf (by linarith)
+    rw [C04_sr_code_nonzero true use01 fill hneg.ne]
+    unfold binCode; simp [hneg, h0]
+
+/-- every code `srAdmissible` lists (what the driver hands to the harness for a training call) is in the
+    code set, in every float context -/
+theorem C04_sr_admissible_code_set (c : Fl) (use01 : Bool) (f x : ℚ) :
+    ∀ k ∈ srAdmissible c use01 f x,
+      (use01 = false → (k = -1 ∨ k = 1)) ∧ (use01 = true → (k = 0 ∨ k = 1)) := by
+  intro k hk
+  unfold srAdmissible at hk
+  simp only [List.map_cons, List.map_nil, List.mem_cons, List.not_mem_nil, or_false] at hk
+  rcases hk with rfl | rfl | rfl | rfl
+  · exact C04_sr_code_set true use01 (Or.inl rfl) _
+  · exact C04_sr_code_set true use01 (Or.inr rfl) _
+  · exact C04_sr_code_set true use01 (Or.inl rfl) _
+  · exact C04_sr_code_set true use01 (Or.inr rfl) _
+
+/-- live object, INFERENCE phase: the call with the option (any truth value) is the plain call — result,
+    `q.scale` and attributes —, so `C04_object_call_codes`, `C04_call_as_fresh_twin`,
+    `C04_history_call_as_fresh` … apply to it -/
+theorem C04_sr_object_inference (c : Fl) (env : Env) (usr : Bool) (d : SRDraw) (o : BinObj) (shape : List ℕ)
+    (x : List ℚ) : o.callSR c env usr .inference d shape x = o.call c env shape x := by
+  unfold BinObj.callSR BinObj.call
+  cases hc : o.a.cfg env shape.length with
+  | error e => rfl
+  | ok cfg => simp only []; rw [C04_sr_inference_invariant]; cases binary c cfg shape x <;> rfl
+
+/-- live object, option OFF: the phase is irrelevant -/
+theorem C04_sr_object_off (c : Fl) (env : Env) (ph : Phase) (d : SRDraw) (o : BinObj) (shape : List ℕ)
+    (x : List ℚ) : o.callSR c env false ph d shape x = o.call c env shape x := by
+  unfold BinObj.callSR BinObj.call
+  cases hc : o.a.cfg env shape.length with
+  | error e => rfl
+  | ok cfg => simp only []; rw [C04_sr_off_invariant]; cases binary c cfg shape x <;> rfl
+
+/-- HISTORIES: on one object the option may be assigned and the learning phase switched between the calls
+    (`SROp`); as long as the history never enters the training phase — started in inference — its state
+    (object, `q.scale`, environment, all outputs) is that of the plain history of Model/BinTer.lean made of
+    its base operations, whatever the option's values and whatever draws are supplied: assigning the option
+    leaves no trace in inference -/
+theorem C04_sr_history_inference (c : Fl) (draw : ℕ → SRDraw) (ops : List SROp) (s : SRSt)
+    (hph : s.ph = .inference) (hops : srInference ops = true) :
+    (srRun c draw s ops).st = binRun c s.st (srBase ops) := by
+  induction ops generalizing s with
+  | nil => rfl
+  | cons op t ih =>
+    unfold srRun binRun at *
+    simp only [List.foldl_cons]
+    cases op with
+    | setUsr b => exact ih { s with usr := b } hph (by simpa [srInference] using hops)
+    | setPhase ph =>
+      cases ph with
+      | inference => exact ih { s with ph := .inference } rfl (by simpa [srInference] using hops)
+      | training => simp [srInference] at hops
+    | base bop =>
+      have hops' : srInference t = true := by simpa [srInference] using hops
+      have hstep : (srStep c draw s (.base bop)).st = binStep c s.st bop ∧
+          (srStep c draw s (.base bop)).ph = .inference := by
+        cases bop <;> simp only [srStep, binStep, hph, C04_sr_object_inference, BinObj.callNp, and_self]
+      rw [ih (srStep c draw s (.base bop)) hstep.2 hops', hstep.1]
+      rfl
+
+/-- ternary: the option is legal only with a data-dependent alpha, where in the inference phase it changes
+    nothing (`_round_through(…, True)` is `tf.round` there); with alpha None / constant / ndarray the call is
+    rejected (`assert not self.use_stochastic_rounding`) -/
+theorem C04_sr_ternary_inference (c : Fl) (cfg : TerCfg) (usr : Bool) (shape : List ℕ) (x : List ℚ) :
+    (cfg.alpha = .auto ∨ cfg.alpha = .autoPo2 → ternarySRInf c cfg usr shape x = ternary c cfg shape x) ∧
+    (ternarySRInf c cfg false shape x = ternary c cfg shape x) ∧
+    (cfg.alpha ≠ .auto → cfg.alpha ≠ .autoPo2 → ternarySRInf c cfg true shape x = .error .assert) := by
+  unfold ternarySRInf
+  refine ⟨?_, rfl, ?_⟩
+  · rintro (h | h) <;> cases usr <;> simp [h]
+  · intro h1 h2
+    cases ha : cfg.alpha <;> simp_all
+
+/-- model witnesses of the seed's scenario: inference with the option on `[0, -0.5, 0.25]`, ±1 and 0/1 mode —
+    the zero gets the code 1 (not 2, not 1.5), and a mask computed BEFORE the fill (the seeded change) would
+    give `sgn 0 + 1 + 1 = 2` -/
+example : binCodeSR true false 1 0 = 1 ∧ binCodeSR true true 1 0 = 1 ∧ binCodeSR true false (-1) 0 = -1 ∧
+    binCodeSR true true (-1) 0 = 0 := by decide +kernel
+example : (binarySR (Fl.exact (1/10000000)) ⟨false, .const 2, ⟨true, .none, .none⟩, none, none⟩ true .inference
+    ⟨[], []⟩ [3] [0, -1/2, 1/4]).map (·.map (·.y)) = .ok [2, -2, 2] := by decide +kernel
 
 end QKV.Props.C04
